@@ -11,7 +11,7 @@ from .rules_wrappers import PlainModel
 
 OPS = ['__setitem__', '__getitem__', '__delitem__', '__contains__', '__len__', '__iter__', 'keys', 'values', 'items', 'get', 'pop',
        'popitem', 'popkeys', 'setdefault', 'update', 'clear', 'copy', '__eq__', '__ne__', '__asdict__', 'fromkeys', '__repr__']
-FROM_BASE_OK = ('__asdict__', '__repr__', 'copy')
+FROM_BASE_OK = ('__asdict__', '__repr__', 'copy', 'popkeys')     # generic in _abc.archive: written against self.pop / self.keys / self.__asdict__
 KLEPTO_OPS = ('popkeys', '__asdict__')
 READERS = ['__getitem__', 'get', '__contains__', '__len__', '__iter__', 'keys', 'values', 'items', '__eq__', '__ne__', '__asdict__', '__repr__']
 MUST_READ = ['__getitem__', 'get', '__contains__', '__len__', '__iter__', '__asdict__', 'keys', 'values', 'items']
